@@ -13,7 +13,7 @@ import vf
 HFILES = ["common/common_test.go.tmpl", "agent/cmesh_test.go", "agent/relay_test.go"]
 XPKGS = {"exit": ["exit/relay_access.go"], "forward": ["forward/relay_access.go"]}
 
-ALL_INVS = "TypeOK Isolation ByteExact IndexConsistent CounterExact BookkeepingEmpty NoEntryForDeadPeer"
+ALL_INVS = "TypeOK Isolation ByteExact IndexConsistent CounterExact BookkeepingEmpty NoEntryForDeadPeer NoStaleEntry"
 SITES = ["ingress", "relay", "exit"]
 # site of the model -> site name used in finding keys, per harness variant
 SITE_KEY = {("ingress", "tcp"): "ingress-stream-table", ("ingress", "forward"): "ingress-stream-table",
@@ -27,12 +27,13 @@ def sset(xs):
 
 
 def cfg(topo, ntun=2, kinds=("tcp", "tcp", "tcp"), keying="peer+sid", sites=SITES, dev=(), ops=("tclose",), maxf=1, maxr=0,
-        emit=False, invs=ALL_INVS, view="view", constraint=None):
+        emit=False, invs=ALL_INVS, view="view", constraint=None, split=False, bufcap=0, burn=()):
     s = ('CONSTANTS Topo = "%s" NTun = %d Kind1 = "%s" Kind2 = "%s" Kind3 = "%s" Keying = "%s"\n'
          ' SidSites = %s Dev = %s Ops = %s MaxF = %d MaxR = %d Emit = %s\n'
+         ' Split = %s BufCap = %d Burn = %s\n'
          'INIT Init\nNEXT Next\nVIEW %s\nACTION_CONSTRAINT EmitEdge\n' % (
              topo, ntun, kinds[0], kinds[1], kinds[2], keying, sset(sites), sset(dev), sset(ops), maxf, maxr,
-             "TRUE" if emit else "FALSE", view))
+             "TRUE" if emit else "FALSE", "TRUE" if split else "FALSE", bufcap, sset(burn), view))
     if invs:
         s += "INVARIANTS " + invs + "\n"
     if constraint:
@@ -73,9 +74,9 @@ def cex_actions(res):
 
 
 def deviation(ctx, name, topo, *, keying="peer+sid", sites=SITES, dev=(), ops=("tclose",), ntun=2, kinds=("tcp",) * 3,
-              maxf=1, maxr=0, invs=ALL_INVS):
+              maxf=1, maxr=0, invs=ALL_INVS, **kw):
     """One deviation must be caught; returns (TLCResult, violated invariant)."""
-    r = tlc(ctx, name, cfg(topo, ntun, kinds, keying, sites, dev, ops, maxf, maxr, invs=invs), expect_violation=True)
+    r = tlc(ctx, name, cfg(topo, ntun, kinds, keying, sites, dev, ops, maxf, maxr, invs=invs, **kw), expect_violation=True)
     if not r.violated:
         raise vf.Infra("deviation run %s not detected by the invariants (vacuous model)" % name)
     return r
@@ -134,7 +135,35 @@ def job(name, topo, variant, edges=None, paths=None, ntun=2, patience_ms=4000, m
             "_paths": paths, "_nodes": nnodes, "_edges": nedges}
 
 
-def run_all(ctx, jobs, scs, wait_ms=2000, icmp=True):
+GATE_POINT = "agent.relay.lookup"
+GATE_ANCHORS = ["\tif upRelay != nil && peerID == upRelay.UpstreamPeer {\n",
+                "\tif downRelay != nil && peerID == downRelay.DownstreamPeer {\n"]
+
+
+def gate_overlay(ctx):
+    """The two-step relay handler of Relay.tla (RelayLookup / RelaySend) needs an observation point between the
+    relay-table lookup (+ peer comparison) and the use of the entry in Agent.handleStreamData.  Until the repository has
+    the point "agent.relay.lookup" (proposed verif-hook: first statement of both relay branches of handleStreamData), the
+    same add-only line is supplied through the build overlay: the package is compiled from a copy of agent.go with that
+    line inserted.  Returns (extra_replace, how)."""
+    src = os.path.join(ctx.repo, "internal", "agent", "agent.go")
+    try:
+        text = open(src).read()
+    except OSError:
+        return None, "agent.go not found"
+    if GATE_POINT in text:
+        return None, "repository hook"
+    if any(text.count(a) != 1 for a in GATE_ANCHORS) or "internal/verifhook" not in text:
+        return None, "anchor not found"
+    for a in GATE_ANCHORS:
+        text = text.replace(a, a + '\t\tverifhook.At("%s", a, peerID, frame)\n' % GATE_POINT)
+    gen = os.path.join(ctx.work, "agent_gate.go")
+    with open(gen, "w") as f:
+        f.write(text)
+    return {src: gen}, "overlay line"
+
+
+def run_all(ctx, jobs, scs, wait_ms=2000, icmp=True, extra=()):
     """One harness invocation: frame-level replay jobs, operation-level scenarios and the ICMP scenarios.
     Returns (replay results by job name, scenario records, icmp summary)."""
     n = len(os.listdir(ctx.work))
@@ -142,8 +171,19 @@ def run_all(ctx, jobs, scs, wait_ms=2000, icmp=True):
     vf.write_json(inp, {"jobs": [{k: v for k, v in j.items() if not k.startswith("_")} for j in jobs]})
     sci = os.path.join(ctx.work, "relay_sc_%d.json" % n)
     vf.write_json(sci, {"scenarios": scs, "wait_ms": wait_ms})
-    r = ctx.gotest("agent", HFILES, "^TestZZVRelay(Replay|Scenario%s)$" % ("|ICMP" if icmp else ""),
-                   env={"ZZV_IN": inp, "ZZV_SC": sci}, extra_pkgs=XPKGS, timeout=3400)
+    names = ["Replay", "Scenario"] + (["ICMP"] if icmp else []) + list(extra)
+    repl, how = (gate_overlay(ctx) if "Gate" in extra else (None, ""))
+    r = ctx.gotest("agent", HFILES, "^TestZZVRelay(%s)$" % "|".join(names),
+                   env={"ZZV_IN": inp, "ZZV_SC": sci, "ZZV_GATE_ROUNDS": 2 if ctx.quick() else 6}, extra_pkgs=XPKGS, timeout=3400,
+                   extra_replace=repl)
+    ctx.relay_extra = {"gate_via": how}
+    for nm, key in (("Gate", "gate-summary"), ("Faults", "faults-summary"), ("Reconnect", "reconnect-summary")):
+        if nm in extra:
+            sm = r.of(key)
+            if not sm:
+                raise vf.Infra("relay harness: no %s record:\n%s" % (key, r.out[-2000:]))
+            ctx.relay_extra[nm] = sm[0]
+    ctx.relay_notes = r.of("note")
     if not r.of("done"):
         raise vf.Infra("relay replay harness did not finish:\n" + r.out[-3000:])
     out = {}
